@@ -257,6 +257,7 @@ func Minimise(e Engine, sc interface{}, v Violation, first *Outcome, budget int)
 				continue
 			}
 			// the candidate under its own schedule seed first, then fresh ones
+			var prevHash uint64
 			for k := 0; k < 24 && used < budget; k++ {
 				c := cand
 				if k > 0 {
@@ -269,6 +270,12 @@ func Minimise(e Engine, sc interface{}, v Violation, first *Outcome, budget int)
 					improved = true
 					break
 				}
+				// reseeding changes nothing for this candidate (no schedule or
+				// order dependence): do not waste the budget on it
+				if k > 0 && o.LogHash == prevHash {
+					break
+				}
+				prevHash = o.LogHash
 			}
 			if improved {
 				break
